@@ -1,5 +1,6 @@
 SPECIFICATION Spec
-CONSTANTS Family = "pct"  MaxTrials = 3  MaxStep = 1  MaxVal = 1  MaxReports = 4  WithNaN = TRUE  WithFail = FALSE
+CONSTANTS Family = "pct"  MaxTrials = 3  MaxStep = 1  MaxVal = 1  MaxReports = 4  WithNaN = TRUE
+          FinishStates = {"COMPLETE", "PRUNED"}
 INVARIANT AlgoWithinEnvelope
 INVARIANT EnvelopeSatisfiable
 INVARIANT CheckStepIsCode
